@@ -198,6 +198,10 @@ def run_case(case, ctx):
     import pyspike.cython.directionality_python_backend as db
     import pyspike
     S = ctx.shim
+    if not S.ok:
+        from ..env import HarnessError
+        raise HarnessError("C12 compares the Python fallback with the .pyx source; the .pyx "
+                           "files could not be transliterated: " + S.error)
     ctx.set_backend(False)
     if case["kind"] == "add":
         f, g = case["f"], case["g"]
